@@ -1,2 +1,333 @@
 import Engeom.Model.Align
-theorem C08_placeholder : True := trivial
+import Engeom.Lemmas.Atan2
+import Engeom.Lemmas.Basics
+import Engeom.Props.C03
+import Mathlib.Analysis.SpecialFunctions.Trigonometric.Deriv
+import Mathlib.Tactic.LinearCombination
+/-
+  C08 — Alignment parameters round-trip and Jacobians are true derivatives (at ℝ).
+-/
+
+namespace C08
+
+open Real
+
+/-! ### 2-D: the rotation-centred parameter object -/
+
+theorem iso2_mul_translation_c (T : Iso2 ℝ) (a b : ℝ) :
+    (T.mul (iso2Translation a b)).c = T.c ∧ (T.mul (iso2Translation a b)).s = T.s ∧
+    ((iso2Translation a b).mul T).c = T.c ∧ ((iso2Translation a b).mul T).s = T.s := by
+  simp [Iso2.mul, iso2Translation]
+
+/-- re-expressing about the centre and back about the origin is the identity (pure algebra) -/
+theorem aboutOrigin_aboutCenter (rc : V2 ℝ) (T : Iso2 ℝ) : asIsoAboutOrigin rc (asIsoAboutCenter rc T) = T := by
+  cases T with
+  | mk c s t =>
+    cases t with
+    | mk tx ty =>
+      simp only [asIsoAboutOrigin, asIsoAboutCenter, Iso2.mul, iso2Translation, Iso2.apply, Iso2.applyVec, V2.add,
+        Iso2.mk.injEq, V2.mk.injEq]
+      refine ⟨by ring, by ring, by ring, by ring⟩
+
+/-- Converting a (unit) isometry to parameters and back is the identity. -/
+theorem iso2_param_roundtrip (T : Iso2 ℝ) (h : T.c * T.c + T.s * T.s = 1) :
+    iso2FromParam (paramFromIso2 T).1 (paramFromIso2 T).2.1 (paramFromIso2 T).2.2 = T := by
+  cases T with
+  | mk c s t =>
+    cases t with
+    | mk tx ty =>
+      simp only [iso2FromParam, paramFromIso2, Iso2.mk.injEq, V2.mk.injEq, and_true]
+      exact ⟨cos_atan2_unit c s h, sin_atan2_unit c s h⟩
+
+/-- For every initial isometry and rotation centre the parameter object reproduces exactly that
+    isometry. -/
+theorem rc2_fromInitial_transform (initial : Iso2 ℝ) (rc : V2 ℝ) (h : initial.c * initial.c + initial.s * initial.s = 1) :
+    (RcParams2.fromInitial initial rc).transform = initial := by
+  unfold RcParams2.fromInitial RcParams2.set
+  dsimp only
+  have hu : (asIsoAboutCenter rc initial).c * (asIsoAboutCenter rc initial).c +
+      (asIsoAboutCenter rc initial).s * (asIsoAboutCenter rc initial).s = 1 := by
+    simp only [asIsoAboutCenter, Iso2.mul, iso2Translation]
+    ring_nf; ring_nf at h; linarith
+  rw [iso2_param_roundtrip _ hu]
+  exact aboutOrigin_aboutCenter rc initial
+
+/-- the transform after any parameter update is a rigid motion … -/
+theorem rc2_set_isRot (rc : V2 ℝ) (x : ℝ × ℝ × ℝ) : C03.IsRot2 (RcParams2.set rc x).transform := by
+  constructor
+  simp only [RcParams2.set, asIsoAboutOrigin, iso2FromParam, Iso2.mul, iso2Translation]
+  have := Real.sin_sq_add_cos_sq x.2.2
+  show (1 * (Real.cos x.2.2 * 1 - Real.sin x.2.2 * 0) - 0 * (Real.sin x.2.2 * 1 + Real.cos x.2.2 * 0)) *
+      (1 * (Real.cos x.2.2 * 1 - Real.sin x.2.2 * 0) - 0 * (Real.sin x.2.2 * 1 + Real.cos x.2.2 * 0)) +
+    (0 * (Real.cos x.2.2 * 1 - Real.sin x.2.2 * 0) + 1 * (Real.sin x.2.2 * 1 + Real.cos x.2.2 * 0)) *
+      (0 * (Real.cos x.2.2 * 1 - Real.sin x.2.2 * 0) + 1 * (Real.sin x.2.2 * 1 + Real.cos x.2.2 * 0)) = 1
+  nlinarith
+
+/-- … so the stored inverse undoes the stored transform after ANY update, and the moved rotation
+    centre is the image of the rotation centre. -/
+theorem rc2_inverse_consistent (rc : V2 ℝ) (x : ℝ × ℝ × ℝ) (p : V2 ℝ) :
+    (RcParams2.set rc x).inverse.apply ((RcParams2.set rc x).transform.apply p) = p ∧
+    (RcParams2.set rc x).currentRc = (RcParams2.set rc x).transform.apply rc :=
+  ⟨C03.inv_apply_apply2 _ (rc2_set_isRot rc x) p, rfl⟩
+
+/-- explicit action of the transform: rotate about the rotation centre, then translate -/
+theorem rc2_transform_apply (rc : V2 ℝ) (tx ty th : ℝ) (p : V2 ℝ) :
+    (RcParams2.set rc (tx, ty, th)).transform.apply p =
+      ⟨Real.cos th * (p.x - rc.x) - Real.sin th * (p.y - rc.y) + rc.x + tx,
+       Real.sin th * (p.x - rc.x) + Real.cos th * (p.y - rc.y) + rc.y + ty⟩ := by
+  simp only [RcParams2.set, asIsoAboutOrigin, iso2FromParam, Iso2.mul, iso2Translation, Iso2.apply, Iso2.applyVec, V2.add,
+    V2.mk.injEq]
+  show _ = Real.cos th * (p.x - rc.x) - Real.sin th * (p.y - rc.y) + rc.x + tx ∧
+    _ = Real.sin th * (p.x - rc.x) + Real.cos th * (p.y - rc.y) + rc.y + ty
+  constructor <;> (simp only [show (Scalar.cos th : ℝ) = Real.cos th from rfl, show (Scalar.sin th : ℝ) = Real.sin th from rfl]; ring)
+
+/-- A pure-translation parameter change translates by that vector wherever the centre is. -/
+theorem rc2_pure_translation (rc : V2 ℝ) (tx ty th dx dy : ℝ) (p : V2 ℝ) :
+    (RcParams2.set rc (tx + dx, ty + dy, th)).transform.apply p =
+      V2.add ((RcParams2.set rc (tx, ty, th)).transform.apply p) ⟨dx, dy⟩ := by
+  rw [rc2_transform_apply, rc2_transform_apply]
+  simp only [V2.add, V2.mk.injEq]
+  constructor <;> ring
+
+/-- The 2-D Jacobian row is the derivative of the residual `n · (T(x) p₀ − s)` with respect to each
+    parameter: `(n.x, n.y, n · rot90 (p − current_rc))` where `p = T(x) p₀`. -/
+theorem jac2_hasDerivAt (rc p0 n s : V2 ℝ) (tx ty th : ℝ) :
+    let P := RcParams2.set rc (tx, ty, th)
+    let J := pointSurfaceJacobian2 (P.transform.apply p0) n P.currentRc
+    HasDerivAt (fun t => V2.dot n (V2.sub ((RcParams2.set rc (t, ty, th)).transform.apply p0) s)) J.1 tx ∧
+    HasDerivAt (fun t => V2.dot n (V2.sub ((RcParams2.set rc (tx, t, th)).transform.apply p0) s)) J.2.1 ty ∧
+    HasDerivAt (fun t => V2.dot n (V2.sub ((RcParams2.set rc (tx, ty, t)).transform.apply p0) s)) J.2.2 th := by
+  intro P J
+  have hcrc : P.currentRc = ⟨rc.x + tx, rc.y + ty⟩ := by
+    show (RcParams2.set rc (tx, ty, th)).transform.apply rc = _
+    rw [rc2_transform_apply]; simp
+  refine ⟨?_, ?_, ?_⟩
+  · have : (fun t => V2.dot n (V2.sub ((RcParams2.set rc (t, ty, th)).transform.apply p0) s)) =
+        fun t => n.x * t + (n.x * (Real.cos th * (p0.x - rc.x) - Real.sin th * (p0.y - rc.y) + rc.x - s.x) +
+          n.y * (Real.sin th * (p0.x - rc.x) + Real.cos th * (p0.y - rc.y) + rc.y + ty - s.y)) := by
+      funext t; rw [rc2_transform_apply]; simp only [V2.dot, V2.sub]; ring
+    rw [this]
+    have h := ((hasDerivAt_id tx).const_mul n.x).add_const
+      (n.x * (Real.cos th * (p0.x - rc.x) - Real.sin th * (p0.y - rc.y) + rc.x - s.x) +
+          n.y * (Real.sin th * (p0.x - rc.x) + Real.cos th * (p0.y - rc.y) + rc.y + ty - s.y))
+    simpa [J, pointSurfaceJacobian2] using h
+  · have : (fun t => V2.dot n (V2.sub ((RcParams2.set rc (tx, t, th)).transform.apply p0) s)) =
+        fun t => n.y * t + (n.x * (Real.cos th * (p0.x - rc.x) - Real.sin th * (p0.y - rc.y) + rc.x + tx - s.x) +
+          n.y * (Real.sin th * (p0.x - rc.x) + Real.cos th * (p0.y - rc.y) + rc.y - s.y)) := by
+      funext t; rw [rc2_transform_apply]; simp only [V2.dot, V2.sub]; ring
+    rw [this]
+    have h := ((hasDerivAt_id ty).const_mul n.y).add_const
+      (n.x * (Real.cos th * (p0.x - rc.x) - Real.sin th * (p0.y - rc.y) + rc.x + tx - s.x) +
+          n.y * (Real.sin th * (p0.x - rc.x) + Real.cos th * (p0.y - rc.y) + rc.y - s.y))
+    simpa [J, pointSurfaceJacobian2] using h
+  · have : (fun t => V2.dot n (V2.sub ((RcParams2.set rc (tx, ty, t)).transform.apply p0) s)) =
+        fun t => (n.x * (p0.x - rc.x) + n.y * (p0.y - rc.y)) * Real.cos t +
+          (n.y * (p0.x - rc.x) - n.x * (p0.y - rc.y)) * Real.sin t +
+          (n.x * (rc.x + tx - s.x) + n.y * (rc.y + ty - s.y)) := by
+      funext t; rw [rc2_transform_apply]; simp only [V2.dot, V2.sub]; ring
+    rw [this]
+    have h := (((Real.hasDerivAt_cos th).const_mul (n.x * (p0.x - rc.x) + n.y * (p0.y - rc.y))).add
+      ((Real.hasDerivAt_sin th).const_mul (n.y * (p0.x - rc.x) - n.x * (p0.y - rc.y)))).add_const
+      (n.x * (rc.x + tx - s.x) + n.y * (rc.y + ty - s.y))
+    have h2 : HasDerivAt (fun t => (n.x * (p0.x - rc.x) + n.y * (p0.y - rc.y)) * Real.cos t +
+          (n.y * (p0.x - rc.x) - n.x * (p0.y - rc.y)) * Real.sin t +
+          (n.x * (rc.x + tx - s.x) + n.y * (rc.y + ty - s.y)))
+        ((n.x * (p0.x - rc.x) + n.y * (p0.y - rc.y)) * -Real.sin th + (n.y * (p0.x - rc.x) - n.x * (p0.y - rc.y)) * Real.cos th) th := h
+    refine h2.congr_deriv ?_
+    show _ = V2.dot n ⟨-(V2.sub (P.transform.apply p0) P.currentRc).y, (V2.sub (P.transform.apply p0) P.currentRc).x⟩
+    rw [hcrc]
+    show _ = V2.dot n ⟨-(V2.sub ((RcParams2.set rc (tx, ty, th)).transform.apply p0) _).y, (V2.sub ((RcParams2.set rc (tx, ty, th)).transform.apply p0) _).x⟩
+    rw [rc2_transform_apply]
+    simp only [V2.dot, V2.sub]
+    ring
+
+/-! ### 3-D: rotation matrices -/
+
+@[simp] theorem cosS (a : ℝ) : (Scalar.cos a : ℝ) = Real.cos a := rfl
+@[simp] theorem sinS (a : ℝ) : (Scalar.sin a : ℝ) = Real.sin a := rfl
+
+/-- orthogonal: columns orthonormal -/
+def Orth (m : Mat3 ℝ) : Prop := C03.IsRot3 (isoOf m ⟨0, 0, 0⟩)
+
+theorem rotX_orth (a : ℝ) : Orth (rotX a) := by
+  have := Real.sin_sq_add_cos_sq a
+  constructor <;> simp [isoOf, rotX, Iso3.col0, Iso3.col1, Iso3.col2, V3.dot] <;> nlinarith
+
+theorem rotY_orth (a : ℝ) : Orth (rotY a) := by
+  have := Real.sin_sq_add_cos_sq a
+  constructor <;> simp [isoOf, rotY, Iso3.col0, Iso3.col1, Iso3.col2, V3.dot] <;> nlinarith
+
+theorem rotZ_orth (a : ℝ) : Orth (rotZ a) := by
+  have := Real.sin_sq_add_cos_sq a
+  constructor <;> simp [isoOf, rotZ, Iso3.col0, Iso3.col1, Iso3.col2, V3.dot] <;> nlinarith
+
+/-- the product of two orthogonal matrices is orthogonal -/
+theorem orth_mul (A B : Mat3 ℝ) (hA : Orth A) (hB : Orth B) : Orth (A.mul B) := by
+  obtain ⟨a00, a11, a22, a01, a02, a12⟩ := hA
+  obtain ⟨b00, b11, b22, b01, b02, b12⟩ := hB
+  simp only [isoOf, Iso3.col0, Iso3.col1, Iso3.col2, V3.dot] at a00 a11 a22 a01 a02 a12 b00 b11 b22 b01 b02 b12
+  constructor <;> simp only [isoOf, Mat3.mul, Mat3.col0, Mat3.col1, Mat3.col2, Iso3.col0, Iso3.col1, Iso3.col2, V3.dot]
+  · linear_combination (B.r0.x * B.r0.x) * a00 + (B.r1.x * B.r1.x) * a11 + (B.r2.x * B.r2.x) * a22 +
+      (2 * B.r0.x * B.r1.x) * a01 + (2 * B.r0.x * B.r2.x) * a02 + (2 * B.r1.x * B.r2.x) * a12 + b00
+  · linear_combination (B.r0.y * B.r0.y) * a00 + (B.r1.y * B.r1.y) * a11 + (B.r2.y * B.r2.y) * a22 +
+      (2 * B.r0.y * B.r1.y) * a01 + (2 * B.r0.y * B.r2.y) * a02 + (2 * B.r1.y * B.r2.y) * a12 + b11
+  · linear_combination (B.r0.z * B.r0.z) * a00 + (B.r1.z * B.r1.z) * a11 + (B.r2.z * B.r2.z) * a22 +
+      (2 * B.r0.z * B.r1.z) * a01 + (2 * B.r0.z * B.r2.z) * a02 + (2 * B.r1.z * B.r2.z) * a12 + b22
+  · linear_combination (B.r0.x * B.r0.y) * a00 + (B.r1.x * B.r1.y) * a11 + (B.r2.x * B.r2.y) * a22 +
+      (B.r0.x * B.r1.y + B.r1.x * B.r0.y) * a01 + (B.r0.x * B.r2.y + B.r2.x * B.r0.y) * a02 +
+      (B.r1.x * B.r2.y + B.r2.x * B.r1.y) * a12 + b01
+  · linear_combination (B.r0.x * B.r0.z) * a00 + (B.r1.x * B.r1.z) * a11 + (B.r2.x * B.r2.z) * a22 +
+      (B.r0.x * B.r1.z + B.r1.x * B.r0.z) * a01 + (B.r0.x * B.r2.z + B.r2.x * B.r0.z) * a02 +
+      (B.r1.x * B.r2.z + B.r2.x * B.r1.z) * a12 + b02
+  · linear_combination (B.r0.y * B.r0.z) * a00 + (B.r1.y * B.r1.z) * a11 + (B.r2.y * B.r2.z) * a22 +
+      (B.r0.y * B.r1.z + B.r1.y * B.r0.z) * a01 + (B.r0.y * B.r2.z + B.r2.y * B.r0.z) * a02 +
+      (B.r1.y * B.r2.z + B.r2.y * B.r1.z) * a12 + b12
+
+/-- `Rx · Ry · Rz` is a rotation matrix for all Euler angles -/
+theorem eulerMat_orth (rx ry rz : ℝ) : Orth (eulerMat rx ry rz) :=
+  orth_mul _ _ (orth_mul _ _ (rotX_orth rx) (rotY_orth ry)) (rotZ_orth rz)
+
+/-! ### 3-D: the rotation-centred parameter object -/
+
+/-- explicit action: rotate about the rotation centre, translate, and land on the moved centre -/
+theorem rc3_transform_apply (rc rcD : V3 ℝ) (tx ty tz rx ry rz : ℝ) (p : V3 ℝ) :
+    (RcParams3.set rc rcD tx ty tz rx ry rz).transform.apply p =
+      V3.add (V3.add ((eulerMat rx ry rz).mulVec (V3.sub p rc)) ⟨tx, ty, tz⟩) rcD := by
+  simp only [RcParams3.set, isoOf, Iso3.mul, Iso3.apply, Iso3.applyVec, Iso3.col0, Iso3.col1, Iso3.col2,
+    Mat3.mulVec, V3.add, V3.sub, V3.neg, V3.dot, V3.mk.injEq]
+  refine ⟨by ring, by ring, by ring⟩
+
+theorem rc3_transform_rot (rc rcD : V3 ℝ) (tx ty tz rx ry rz : ℝ) :
+    C03.IsRot3 (RcParams3.set rc rcD tx ty tz rx ry rz).transform := by
+  obtain ⟨c00, c11, c22, c01, c02, c12⟩ := eulerMat_orth rx ry rz
+  simp only [isoOf, Iso3.col0, Iso3.col1, Iso3.col2, V3.dot] at c00 c11 c22 c01 c02 c12
+  constructor <;>
+    simp only [RcParams3.set, isoOf, Iso3.mul, Iso3.col0, Iso3.col1, Iso3.col2, V3.dot, V3.neg]
+  · linear_combination c00
+  · linear_combination c11
+  · linear_combination c22
+  · linear_combination c01
+  · linear_combination c02
+  · linear_combination c12
+
+/-- After ANY parameter update the stored inverse undoes the transform and the moved rotation
+    centre is the image of the rotation centre. -/
+theorem rc3_inverse_consistent (rc rcD : V3 ℝ) (tx ty tz rx ry rz : ℝ) (p : V3 ℝ) :
+    (RcParams3.set rc rcD tx ty tz rx ry rz).transform.inv.apply
+      ((RcParams3.set rc rcD tx ty tz rx ry rz).transform.apply p) = p ∧
+    (RcParams3.set rc rcD tx ty tz rx ry rz).currentRc =
+      (RcParams3.set rc rcD tx ty tz rx ry rz).transform.apply rc :=
+  ⟨C03.inv_apply_apply _ (rc3_transform_rot rc rcD tx ty tz rx ry rz) p, rfl⟩
+
+/-- A pure-translation parameter change translates by that vector wherever the centre is. -/
+theorem rc3_pure_translation (rc rcD : V3 ℝ) (tx ty tz rx ry rz dx dy dz : ℝ) (p : V3 ℝ) :
+    (RcParams3.set rc rcD (tx + dx) (ty + dy) (tz + dz) rx ry rz).transform.apply p =
+      V3.add ((RcParams3.set rc rcD tx ty tz rx ry rz).transform.apply p) ⟨dx, dy, dz⟩ := by
+  rw [rc3_transform_apply, rc3_transform_apply]
+  simp only [V3.add, V3.mk.injEq]
+  refine ⟨by ring, by ring, by ring⟩
+
+/-- The parameter object built from an initial isometry reproduces exactly that isometry, provided
+    the Euler decomposition round-trips the initial rotation (proved below for every Euler triple,
+    including exactly at gimbal lock). -/
+theorem rc3_fromInitial_transform (initial : Iso3 ℝ) (rc : V3 ℝ)
+    (hR : eulerMat (toWpr ⟨initial.r0, initial.r1, initial.r2⟩).1 (toWpr ⟨initial.r0, initial.r1, initial.r2⟩).2.1
+      (toWpr ⟨initial.r0, initial.r1, initial.r2⟩).2.2 = ⟨initial.r0, initial.r1, initial.r2⟩) (p : V3 ℝ) :
+    (RcParams3.fromInitial initial rc).transform.apply p = initial.apply p := by
+  unfold RcParams3.fromInitial
+  dsimp only
+  rw [rc3_transform_apply, hR]
+  simp only [Mat3.mulVec, Iso3.apply, Iso3.applyVec, V3.add, V3.sub, V3.dot, V3.mk.injEq]
+  refine ⟨by ring, by ring, by ring⟩
+
+/-! ### 3-D: the Euler decomposition round-trips -/
+
+theorem wprEps_pos : (0 : ℝ) < wprEps ∧ (wprEps : ℝ) < 1 := by
+  unfold wprEps; rw [ofRatR]; norm_num [Gen.WPR_EPSILON_num, Gen.WPR_EPSILON_den]
+
+/-- entries of `Rx·Ry·Rz` that the decomposition reads -/
+theorem eulerMat_entries (rx ry rz : ℝ) :
+    (eulerMat rx ry rz).r0 = ⟨Real.cos ry * Real.cos rz, -(Real.cos ry * Real.sin rz), Real.sin ry⟩ ∧
+    (eulerMat rx ry rz).r1.z = -(Real.sin rx * Real.cos ry) ∧ (eulerMat rx ry rz).r2.z = Real.cos rx * Real.cos ry := by
+  simp only [eulerMat, rotX, rotY, rotZ, Mat3.mul, Mat3.col0, Mat3.col1, Mat3.col2, V3.dot, cosS, sinS, V3.mk.injEq]
+  refine ⟨⟨by ring, by ring, by ring⟩, by ring, by ring⟩
+
+/-- Away from gimbal lock the Euler triple itself is recovered: `to_wpr (Rx·Ry·Rz) = (rx, ry, rz)`
+    for `rx, rz ∈ (−π, π]`, `ry ∈ (−π/2, π/2)` with `cos ry ≥ ε`. -/
+theorem toWpr_eulerMat (rx ry rz : ℝ) (hx : -π < rx ∧ rx ≤ π) (hz : -π < rz ∧ rz ≤ π)
+    (hy : -(π / 2) < ry ∧ ry < π / 2) (hc : wprEps ≤ Real.cos ry) :
+    toWpr (eulerMat rx ry rz) = (rx, ry, rz) := by
+  obtain ⟨e0, e1, e2⟩ := eulerMat_entries rx ry rz
+  have hcy : 0 < Real.cos ry := lt_of_lt_of_le wprEps_pos.1 hc
+  have hcosy : Scalar.sqrt ((eulerMat rx ry rz).r0.x * (eulerMat rx ry rz).r0.x +
+      (eulerMat rx ry rz).r0.y * (eulerMat rx ry rz).r0.y) = Real.cos ry := by
+    rw [e0, sqrtR]
+    have : Real.cos ry * Real.cos rz * (Real.cos ry * Real.cos rz) + -(Real.cos ry * Real.sin rz) * -(Real.cos ry * Real.sin rz)
+        = Real.cos ry * Real.cos ry := by
+      have := Real.sin_sq_add_cos_sq rz; nlinarith
+    rw [this]; exact Real.sqrt_mul_self hcy.le
+  unfold toWpr
+  simp only [hcosy]
+  have hn1 : ¬ ((decide (Real.cos ry < wprEps) && decide (0 < (eulerMat rx ry rz).r0.z)) = true) := by
+    simp [not_lt.mpr hc]
+  have hn2 : ¬ (Real.cos ry < wprEps) := not_lt.mpr hc
+  rw [if_neg hn1, if_neg hn2, e1, e2, e0]
+  simp only [neg_neg, Prod.mk.injEq]
+  refine ⟨?_, ?_, ?_⟩
+  · have h := atan2_sin_cos (Real.cos ry) rx hcy hx.1 hx.2
+    rw [show Real.sin rx * Real.cos ry = Real.cos ry * Real.sin rx by ring,
+      show Real.cos rx * Real.cos ry = Real.cos ry * Real.cos rx by ring]
+    exact h
+  · have hpi := Real.pi_pos
+    have h := atan2_sin_cos 1 ry one_pos (by linarith [hy.1]) (by linarith [hy.2])
+    simpa using h
+  · exact atan2_sin_cos (Real.cos ry) rz hcy hz.1 hz.2
+
+/-- Exactly at gimbal lock (`ry = π/2`) the decomposition returns another triple `(w, π/2, 0)`
+    whose matrix is the SAME rotation: the round trip is exact on the matrix. -/
+theorem gimbal_matrix_roundtrip (rx rz w : ℝ) (hc : Real.cos w = Real.cos (rx + rz)) (hs : Real.sin w = Real.sin (rx + rz)) :
+    eulerMat w (π / 2) 0 = eulerMat rx (π / 2) rz := by
+  simp only [eulerMat, rotX, rotY, rotZ, Mat3.mul, Mat3.col0, Mat3.col1, Mat3.col2, V3.dot, cosS, sinS,
+    Real.cos_pi_div_two, Real.sin_pi_div_two, Real.cos_zero, Real.sin_zero, Mat3.mk.injEq, V3.mk.injEq]
+  rw [Real.cos_add] at hc
+  rw [Real.sin_add] at hs
+  constructorm* _ ∧ _
+  all_goals (try trivial)
+  all_goals (try linarith)
+
+theorem toWpr_gimbal (rx rz : ℝ) :
+    let m := eulerMat rx (π / 2) rz
+    eulerMat (toWpr m).1 (toWpr m).2.1 (toWpr m).2.2 = m := by
+  intro m
+  have hm0 : m.r0 = ⟨0, 0, 1⟩ := by
+    obtain ⟨e0, _, _⟩ := eulerMat_entries rx (π / 2) rz
+    show (eulerMat rx (π / 2) rz).r0 = _
+    rw [e0]; simp
+  have hm1 : m.r1.x = Real.sin (rx + rz) ∧ m.r1.y = Real.cos (rx + rz) := by
+    show (eulerMat rx (π / 2) rz).r1.x = _ ∧ (eulerMat rx (π / 2) rz).r1.y = _
+    simp only [eulerMat, rotX, rotY, rotZ, Mat3.mul, Mat3.col0, Mat3.col1, Mat3.col2, V3.dot, cosS, sinS,
+      Real.cos_pi_div_two, Real.sin_pi_div_two, Real.sin_add, Real.cos_add]
+    constructor <;> ring
+  have hw : toWpr m = (Scalar.atan2 m.r1.x m.r1.y, π / 2, 0) := by
+    unfold toWpr
+    rw [hm0]
+    have h1 : (decide (Scalar.sqrt ((0:ℝ) * 0 + 0 * 0) < wprEps) && decide ((0:ℝ) < 1)) = true := by
+      rw [sqrtR]; simp [wprEps_pos.1]
+    simp only [h1, if_true]
+    rfl
+  rw [hw]
+  dsimp only
+  rw [hm1.1, hm1.2]
+  have hu : Real.cos (rx + rz) * Real.cos (rx + rz) + Real.sin (rx + rz) * Real.sin (rx + rz) = 1 := by
+    have := Real.sin_sq_add_cos_sq (rx + rz); nlinarith
+  exact gimbal_matrix_roundtrip rx rz _ (cos_atan2_unit _ _ hu) (sin_atan2_unit _ _ hu)
+
+/-- Regression witness for the defect fixed in /repo (D17): the pre-fix test `sin y > 1 − ε` already
+    fires for `sin y = 1 − ε/2`, i.e. a pitch about `√ε ≈ 1e-4` rad away from the pole, where
+    `cos y` is far above `ε` and the locked formulas are wrong. -/
+theorem toWpr_prefix_band : toWprLocked_prefix ((1 : ℝ) - wprEps / 2) = true := by
+  unfold toWprLocked_prefix
+  have := wprEps_pos.1
+  simp only [decide_eq_true_eq]; linarith
+
+end C08
